@@ -1,24 +1,51 @@
 package main
 
+// Loader. The repository's packages (./x/... ./app/... and the module packages they import, e.g.
+// testutil) are parsed and type-checked FROM SOURCE on every run; packages outside the module
+// (cosmos-sdk, ibc-go, cometbft, std) are imported from the compiler's export data, which depends
+// only on go.mod/go.sum and is cached by the go command. File selection (build tags, GOOS/GOARCH)
+// and the dependency graph come from `go list` with the repository's own configuration.
+//
+// This is what go/packages' LoadSyntax mode does, except that export data is requested only for
+// packages outside the module, so an edited module file never triggers a recompilation of its
+// dependents (which made overlay-based self-test variants cost minutes each).
+
 import (
+	"bytes"
+	"encoding/json"
 	"fmt"
+	"go/ast"
+	"go/parser"
 	"go/token"
 	"go/types"
+	"io"
 	"os"
+	"os/exec"
+	"path/filepath"
 	"sort"
 	"strings"
 
-	"golang.org/x/tools/go/packages"
+	"golang.org/x/tools/go/gcexportdata"
 	"golang.org/x/tools/go/ssa"
-	"golang.org/x/tools/go/ssa/ssautil"
 )
 
 const modPath = "github.com/cosmos/interchain-security/v7"
 
+// Pkg is one source-loaded package of the repository.
+type Pkg struct {
+	PkgPath string
+	Dir     string
+	Files   []*ast.File
+	Types   *types.Package
+	Info    *types.Info
+	Root    bool // matched by ./x/... or ./app/...
+}
+
 // Prog is the loaded, type-checked and SSA-built repository.
 type Prog struct {
 	Fset      *token.FileSet
-	Pkgs      []*packages.Package
+	Pkgs      []*Pkg // root packages (./x/... ./app/...)
+	AllPkgs   []*Pkg // every module package loaded from source
 	SSA       *ssa.Program
 	SSAPkgs   map[string]*ssa.Package // by import path
 	NumFuncs  int
@@ -26,11 +53,26 @@ type Prog struct {
 	Dir       string
 	funcIndex map[string]*ssa.Function
 	cidx      *callIndex
+	External  int // packages imported from export data
 }
 
-// Load type-checks ./x/... and ./app/... of the repository at dir with the real build configuration
-// and builds SSA. overlay (optional) replaces file contents in memory (self-test variants).
-func Load(dir string, overlay map[string][]byte) (*Prog, error) {
+type listPkg struct {
+	ImportPath string
+	Dir        string
+	Name       string
+	GoFiles    []string
+	CgoFiles   []string
+	Imports    []string
+	ImportMap  map[string]string
+	Export     string
+	Standard   bool
+	DepOnly    bool
+	Module     *struct{ Path string }
+	Error      *struct{ Err string }
+	DepsErrors []*struct{ Err string }
+}
+
+func goEnv() []string {
 	env := []string{}
 	for _, e := range os.Environ() {
 		k := strings.SplitN(e, "=", 2)[0]
@@ -40,45 +82,259 @@ func Load(dir string, overlay map[string][]byte) (*Prog, error) {
 		}
 		env = append(env, e)
 	}
-	env = append(env, "GOFLAGS=-mod=mod", "GOPROXY=off", "GOWORK=off", "GOTOOLCHAIN=auto")
-	cfg := &packages.Config{
-		Mode: packages.NeedName | packages.NeedFiles | packages.NeedCompiledGoFiles | packages.NeedImports |
-			packages.NeedTypes | packages.NeedSyntax | packages.NeedTypesInfo | packages.NeedTypesSizes | packages.NeedModule,
-		Dir:     dir,
-		Env:     env,
-		Tests:   false,
-		Overlay: overlay,
-	}
-	pkgs, err := packages.Load(cfg, "./x/...", "./app/...")
+	return append(env, "GOFLAGS=-mod=mod", "GOPROXY=off", "GOWORK=off", "GOTOOLCHAIN=auto")
+}
+
+func goList(dir string, args ...string) ([]*listPkg, error) {
+	cmd := exec.Command("go", append([]string{"list", "-e", "-json=ImportPath,Dir,Name,GoFiles,CgoFiles,Imports,ImportMap,Export,Standard,DepOnly,Module,Error,DepsErrors"}, args...)...)
+	cmd.Dir = dir
+	cmd.Env = goEnv()
+	var stderr bytes.Buffer
+	cmd.Stderr = &stderr
+	out, err := cmd.Output()
 	if err != nil {
-		return nil, err
+		return nil, fmt.Errorf("go list %v: %v: %s", args, err, firstLine(stderr.String()))
 	}
-	if len(pkgs) == 0 {
-		return nil, fmt.Errorf("no packages loaded")
+	dec := json.NewDecoder(bytes.NewReader(out))
+	var res []*listPkg
+	for {
+		var p listPkg
+		if err := dec.Decode(&p); err == io.EOF {
+			break
+		} else if err != nil {
+			return nil, err
+		}
+		res = append(res, &p)
 	}
-	var errs []string
-	for _, p := range pkgs {
-		for _, e := range p.Errors {
-			errs = append(errs, e.Error())
+	return res, nil
+}
+
+// extCache holds, per repository directory, what does not depend on the module's own source text:
+// the package listing and the packages imported from export data. It is reused by later loads in
+// the same process (self-test variants), which re-parse and re-check every module package.
+type extCacheT struct {
+	all        []*listPkg
+	exportFile map[string]string
+	fset       *token.FileSet
+	imports    map[string]*types.Package
+}
+
+var extCache = map[string]*extCacheT{}
+
+// Load type-checks ./x/... and ./app/... of the repository at dir (plus the module packages they
+// import) from source and builds SSA. overlay (optional, absolute path -> content) replaces file
+// contents in memory.
+func Load(dir string, overlay map[string][]byte) (*Prog, error) {
+	// 1. dependency graph and file sets (no compilation)
+	cache := extCache[dir]
+	if cache == nil || len(overlay) == 0 {
+		all, err := goList(dir, "-deps", "./x/...", "./app/...")
+		if err != nil {
+			return nil, err
+		}
+		cache = &extCacheT{all: all, fset: token.NewFileSet(), imports: map[string]*types.Package{}}
+		extCache[dir] = cache
+	}
+	all := cache.all
+	if len(all) == 0 {
+		return nil, fmt.Errorf("no packages listed")
+	}
+	byPath := map[string]*listPkg{}
+	var module, external []*listPkg
+	for _, p := range all {
+		byPath[p.ImportPath] = p
+		inModule := p.Module != nil && p.Module.Path == modPath
+		if inModule {
+			if p.Error != nil {
+				return nil, fmt.Errorf("package %s: %s", p.ImportPath, firstLine(p.Error.Err))
+			}
+			if len(p.CgoFiles) > 0 {
+				return nil, fmt.Errorf("package %s uses cgo (unsupported by the source loader)", p.ImportPath)
+			}
+			module = append(module, p)
+		} else {
+			external = append(external, p)
 		}
 	}
-	if len(errs) > 0 {
-		sort.Strings(errs)
-		if len(errs) > 10 {
-			errs = errs[:10]
+	nRoot := 0
+	for _, p := range module {
+		if !p.DepOnly {
+			nRoot++
 		}
-		return nil, fmt.Errorf("package errors: %s", strings.Join(errs, "; "))
 	}
-	prog, spkgs := ssautil.Packages(pkgs, ssa.InstantiateGenerics)
+	if nRoot == 0 {
+		return nil, fmt.Errorf("no root packages matched ./x/... ./app/...")
+	}
+
+	// 2. export data for the packages outside the module that module packages import directly
+	//    (their own dependencies are reached through the export data's import section)
+	need := map[string]bool{}
+	for _, p := range module {
+		for _, imp := range p.Imports {
+			if m, ok := p.ImportMap[imp]; ok {
+				imp = m
+			}
+			if q := byPath[imp]; q != nil && !(q.Module != nil && q.Module.Path == modPath) && imp != "unsafe" && imp != "C" {
+				need[imp] = true
+			}
+		}
+	}
+	var needList []string
+	for k := range need {
+		needList = append(needList, k)
+	}
+	sort.Strings(needList)
+	exportFile := cache.exportFile
+	if exportFile == nil && len(needList) > 0 {
+		exportFile = map[string]string{}
+		cache.exportFile = exportFile
+		// -deps so that indirectly referenced packages have export files too
+		ex, err := goList(dir, append([]string{"-export", "-deps"}, needList...)...)
+		if err != nil {
+			return nil, err
+		}
+		for _, p := range ex {
+			if p.Export != "" {
+				exportFile[p.ImportPath] = p.Export
+			}
+		}
+	}
+
+	// 3. parse + type-check module packages in dependency order
+	fset := cache.fset
+	imports := cache.imports // packages read from export data (never module packages)
+	P := &Prog{Fset: fset, SSAPkgs: map[string]*ssa.Package{}, Dir: dir}
+	srcPkgs := map[string]*Pkg{}
+	var typeErrs []string
+	var check func(lp *listPkg) (*types.Package, error)
+	importExternal := func(path string) (*types.Package, error) {
+		if path == "unsafe" {
+			return types.Unsafe, nil
+		}
+		if p := imports[path]; p != nil && p.Complete() {
+			return p, nil
+		}
+		f := exportFile[path]
+		if f == "" {
+			return nil, fmt.Errorf("no export data for %s", path)
+		}
+		fh, err := os.Open(f)
+		if err != nil {
+			return nil, err
+		}
+		defer fh.Close()
+		r, err := gcexportdata.NewReader(fh)
+		if err != nil {
+			return nil, fmt.Errorf("%s: %v", path, err)
+		}
+		return gcexportdata.Read(r, fset, imports, path)
+	}
+	type importerFn func(path string) (*types.Package, error)
+	checking := map[string]bool{}
+	check = func(lp *listPkg) (*types.Package, error) {
+		if sp := srcPkgs[lp.ImportPath]; sp != nil {
+			return sp.Types, nil
+		}
+		if checking[lp.ImportPath] {
+			return nil, fmt.Errorf("import cycle through %s", lp.ImportPath)
+		}
+		checking[lp.ImportPath] = true
+		var files []*ast.File
+		for _, gf := range lp.GoFiles {
+			path := filepath.Join(lp.Dir, gf)
+			var src interface{}
+			if b, ok := overlay[path]; ok {
+				src = b
+			}
+			f, err := parser.ParseFile(fset, path, src, parser.ParseComments|parser.SkipObjectResolution)
+			if err != nil {
+				return nil, err
+			}
+			if src != nil {
+				// an overlay must not change the import graph the listing was computed for
+				known := map[string]bool{}
+				for _, i := range lp.Imports {
+					known[i] = true
+				}
+				for _, is := range f.Imports {
+					if ip := strings.Trim(is.Path.Value, "\""); !known[ip] {
+						return nil, fmt.Errorf("overlay of %s adds import %s (unsupported: re-run on a scratch copy)", gf, ip)
+					}
+				}
+			}
+			files = append(files, f)
+		}
+		info := &types.Info{
+			Types:      map[ast.Expr]types.TypeAndValue{},
+			Defs:       map[*ast.Ident]types.Object{},
+			Uses:       map[*ast.Ident]types.Object{},
+			Implicits:  map[ast.Node]types.Object{},
+			Instances:  map[*ast.Ident]types.Instance{},
+			Scopes:     map[ast.Node]*types.Scope{},
+			Selections: map[*ast.SelectorExpr]*types.Selection{},
+		}
+		conf := types.Config{
+			Importer: importerFunc(func(path string) (*types.Package, error) {
+				if m, ok := lp.ImportMap[path]; ok {
+					path = m
+				}
+				if dep := byPath[path]; dep != nil && dep.Module != nil && dep.Module.Path == modPath {
+					return check(dep)
+				}
+				return importExternal(path)
+			}),
+			Sizes: types.SizesFor("gc", "amd64"),
+			Error: func(err error) {
+				if len(typeErrs) < 10 {
+					typeErrs = append(typeErrs, err.Error())
+				}
+			},
+			GoVersion: "go1.23",
+		}
+		tp, _ := conf.Check(lp.ImportPath, fset, files, info)
+		pk := &Pkg{PkgPath: lp.ImportPath, Dir: lp.Dir, Files: files, Types: tp, Info: info, Root: !lp.DepOnly}
+		srcPkgs[lp.ImportPath] = pk
+		P.AllPkgs = append(P.AllPkgs, pk)
+		if pk.Root {
+			P.Pkgs = append(P.Pkgs, pk)
+		}
+		return tp, nil
+	}
+	sort.Slice(module, func(i, j int) bool { return module[i].ImportPath < module[j].ImportPath })
+	for _, lp := range module {
+		if _, err := check(lp); err != nil {
+			return nil, fmt.Errorf("package errors: %v", err)
+		}
+	}
+	if len(typeErrs) > 0 {
+		return nil, fmt.Errorf("package errors: %s", strings.Join(typeErrs, "; "))
+	}
+
+	// 4. SSA
+	prog := ssa.NewProgram(fset, ssa.InstantiateGenerics)
+	created := map[*types.Package]bool{}
+	var createAll func(p *types.Package)
+	createAll = func(p *types.Package) {
+		if p == nil || created[p] {
+			return
+		}
+		created[p] = true
+		for _, imp := range p.Imports() {
+			createAll(imp)
+		}
+		if sp := srcPkgs[p.Path()]; sp != nil && sp.Types == p {
+			P.SSAPkgs[p.Path()] = prog.CreatePackage(p, sp.Files, sp.Info, false)
+		} else {
+			prog.CreatePackage(p, nil, nil, true)
+			P.External++
+		}
+	}
+	for _, pk := range P.AllPkgs {
+		createAll(pk.Types)
+	}
 	prog.Build()
-	P := &Prog{Fset: prog.Fset, Pkgs: pkgs, SSA: prog, SSAPkgs: map[string]*ssa.Package{}, Dir: dir}
-	for i, sp := range spkgs {
-		if sp == nil {
-			return nil, fmt.Errorf("no SSA for %s", pkgs[i].PkgPath)
-		}
-		P.SSAPkgs[pkgs[i].PkgPath] = sp
-	}
-	P.AllFuncs = ssautil.AllFunctions(prog)
+	P.SSA = prog
+	P.AllFuncs = allFunctions(prog, P)
 	for f := range P.AllFuncs {
 		if f.Pkg != nil && strings.HasPrefix(f.Pkg.Pkg.Path(), modPath) && f.Blocks != nil {
 			P.NumFuncs++
@@ -87,4 +343,39 @@ func Load(dir string, overlay map[string][]byte) (*Prog, error) {
 	return P, nil
 }
 
-var _ = types.Universe
+type importerFunc func(path string) (*types.Package, error)
+
+func (f importerFunc) Import(path string) (*types.Package, error) { return f(path) }
+
+// allFunctions: every function, method (of every named type, value and pointer receiver) and
+// anonymous function of the source-loaded packages.
+func allFunctions(prog *ssa.Program, P *Prog) map[*ssa.Function]bool {
+	out := map[*ssa.Function]bool{}
+	var add func(f *ssa.Function)
+	add = func(f *ssa.Function) {
+		if f == nil || out[f] {
+			return
+		}
+		out[f] = true
+		for _, a := range f.AnonFuncs {
+			add(a)
+		}
+	}
+	for _, sp := range P.SSAPkgs {
+		for _, m := range sp.Members {
+			switch x := m.(type) {
+			case *ssa.Function:
+				add(x)
+			case *ssa.Type:
+				t := x.Type()
+				for _, tt := range []types.Type{t, types.NewPointer(t)} {
+					ms := prog.MethodSets.MethodSet(tt)
+					for i := 0; i < ms.Len(); i++ {
+						add(prog.MethodValue(ms.At(i)))
+					}
+				}
+			}
+		}
+	}
+	return out
+}
